@@ -55,6 +55,11 @@ CMPOPS = {ast.Lt: 'lt', ast.LtE: 'le', ast.Gt: 'gt', ast.GtE: 'ge', ast.Eq: 'eq'
 MATH_SCALAR = {'math.log': 'log', 'math.log1p': 'log1p', 'math.exp': 'exp', 'math.expm1': 'expm1', 'math.isnan': 'isnan', 'math.isinf': 'isinf'}
 
 
+# functions of the standard `operator` module: the Python operator they stand for (same transfer function as the operator itself)
+OPERATOR_FN = {'lt': ('lt', 2), 'le': ('le', 2), 'gt': ('gt', 2), 'ge': ('ge', 2), 'eq': ('eq', 2), 'ne': ('ne', 2), 'add': ('add', 2), 'sub': ('sub', 2),
+               'mul': ('mul', 2), 'truediv': ('div', 2), 'neg': ('neg', 1), 'abs': ('abs', 1), 'not_': ('logical_not', 1), 'pos': ('ident', 1)}
+
+
 class Interp:
     def __init__(self, prog: Program, func: FuncInfo, isinstance_answers: Optional[Dict[str, bool]] = None):
         self.prog = prog
@@ -322,6 +327,8 @@ class Interp:
                     return self.torch_fn(name, e, env, kws)
                 if w in ('module:math', 'external:math') and 'math.' + name in MATH_SCALAR:
                     return apply(MATH_SCALAR['math.' + name], as_av(self.eval(e.args[0], env), e).with_mode('scalar'), mode='scalar')
+                if w in ('module:operator', 'external:operator') and name in OPERATOR_FN:
+                    return self.operator_fn(name, [self.eval(a, env) for a in e.args], e)
                 if w.startswith('class:PatternedTensor') and name == 'from_int':
                     raise Unsupported(e, 'PatternedTensor.from_int')
                 if w == 'builtin:object' and name == '__setattr__':
@@ -358,6 +365,9 @@ class Interp:
                     return args[1]
             if isinstance(target, Closure):
                 return self.call_closure(target, args, e)
+            if isinstance(target, Opaque) and target.what.startswith(('module:operator.', 'external:operator.')) and target.what.rsplit('.', 1)[1] in OPERATOR_FN:
+                # a function of the operator module passed around as a value (e.g. `_compare(other, operator.lt, torch.lt)`)
+                return self.operator_fn(target.what.rsplit('.', 1)[1], args, e)
             if isinstance(target, Opaque) and target.what.startswith(('module:torch.', 'external:torch.')):
                 # a torch function passed around as a value (e.g. `_default_op(torch.log)`)
                 fake = ast.Call(func=ast.Attribute(value=ast.Name(id='torch', ctx=ast.Load()), attr=target.what.rsplit('.', 1)[1], ctx=ast.Load()),
@@ -365,6 +375,12 @@ class Interp:
                 return self.torch_fn(target.what.rsplit('.', 1)[1], fake, env, kws)
             raise Unsupported(e, f"call of {target!r}")
         raise Unsupported(e)
+
+    def operator_fn(self, name: str, args: List[Any], node: ast.AST) -> Any:
+        op, arity = OPERATOR_FN[name]
+        if len(args) != arity:
+            raise Unsupported(node, f"operator.{name} with {len(args)} arguments")
+        return self.unop(op, args[0], node) if arity == 1 else self.binop(op, args[0], args[1], node)
 
     def call_closure(self, cl: Closure, args: List[Any], node: ast.AST) -> Any:
         n = cl.node
